@@ -322,6 +322,31 @@ Definition pdm_step (mf dmf : name -> name -> bool) (s : pdm_state) (o : pdm_op)
 Definition pdm_run (mf dmf : name -> name -> bool) (s : pdm_state) (ops : list pdm_op) : pdm_state :=
   fold_left (pdm_step mf dmf) ops s.
 
+(* scope and spec of domain-manager histories *)
+Definition pdm_no_deletes (h : list pdm_op) : bool :=
+  forallb (fun o => match o with QDel _ _ _ => false | _ => true end) h.
+Definition qop_names (o : pdm_op) : list name :=
+  match o with
+  | QAdd u r _ | QDel u r _ | QHas u r _ => [u; r]
+  | QRoles x _ | QUsers x _ => [x]
+  end.
+Definition qop_dom (o : pdm_op) : name :=
+  match o with QAdd _ _ d | QDel _ _ d | QHas _ _ d | QRoles _ d | QUsers _ d => d end.
+Definition pdm_names (h : list pdm_op) : list name := flat_map qop_names h.
+Definition pdm_doms (h : list pdm_op) : list name := map qop_dom h.
+Definition pdm_adds (h : list pdm_op) : list link :=
+  flat_map (fun o => match o with QAdd u r _ => [(u, r)] | _ => [] end) h.
+(* the assignments of the history that apply in domain d: recorded for d itself or for a domain
+   pattern that d matches *)
+Definition pdm_adds_in (dmf : name -> name -> bool) (d : name) (h : list pdm_op) : list link :=
+  flat_map (fun o => match o with
+                     | QAdd u r d' => if N.eqb d' d || dmf d d' then [(u, r)] else []
+                     | _ => []
+                     end) h.
+Definition pdm_in_scope (mf dmf : name -> name -> bool) (h : list pdm_op) : bool :=
+  roles_plain mf (pdm_names h) (pdm_adds h) && mf_trans mf (pdm_names h) (pdm_adds h) &&
+  forallb (fun d => dmf d d) (pdm_doms h).
+
 (* ---------------- oracle of C14 ---------------- *)
 Definition table_mf (tbl : list link) (a b : name) : bool := mem link_eqb (a, b) tbl.
 
